@@ -284,6 +284,7 @@ def whole(n):
 
 HEADER = '''import Cpl.Py
 import Cpl.Gen.Blocks
+import Cpl.Model.Measures
 /-! GENERATED by tools/py2lean_comp.py from /repo/cellpylib/apen.py (the countable part of `apen`: windows, Chebyshev
 distance, match counts, denominators) on every run. Do not edit. `Option`: `none` = the Python code raised. -/
 
@@ -589,6 +590,536 @@ def gen_strides(repo, out):
     return status
 
 
+BL_HEADER = '''import Cpl.Model.Measures
+/-! GENERATED by tools/py2lean_comp.py from /repo/cellpylib/bien.py (the accumulation loops of `bien`, `tbien`, `ktbien`) on
+every run. Do not edit. Floating-point operations are written over the abstract arithmetic record `Num F` of the model
+(`+ - * /` = `N.add/sub/mul/div`, `math.log(x, 2.0)` = `N.log2`, a whole number used as a float = `N.ofNat`), so the same
+text is the Float computation of the driver (`floatNum`) and the real-number formula of the theorems (`realNum`).
+`shannon_entropy`, `binary_derivative`, `cyclic_binary_derivative` are the model's functions (sibling calls; the derivatives
+have their own source tie in Ties/C18.lean, the entropy's countable part in Ties/C16.lean). A `for` loop over `range(e)` is a
+left fold over `List.range` whose state is the tuple of the variables the body reassigns. -/
+
+namespace Cpl.Gen.BienLoops
+open Cpl
+set_option linter.unusedVariables false
+'''
+
+
+class FloatFn:
+    """One function of bien.py: straight-line float / int / string code with one `for k in range(e)` loop."""
+    SIBLINGS = {"binary_derivative": "binaryDerivative", "cyclic_binary_derivative": "cyclicBinaryDerivative"}
+
+    def __init__(self, fn):
+        self.fn = fn
+        self.params = [a.arg for a in fn.args.args]
+        if not self.params or fn.args.defaults or fn.args.vararg or fn.args.kwarg:
+            raise Unsupported("parameters of " + fn.name)
+        self.types = {p: "str" for p in self.params}       # every parameter is a sequence of symbols
+
+    def ty(self, n):
+        if isinstance(n, ast.Constant):
+            if isinstance(n.value, bool):
+                raise Unsupported("bool")
+            if isinstance(n.value, int):
+                return "int"
+            if isinstance(n.value, float):
+                return "float"
+        if isinstance(n, ast.Name):
+            if n.id not in self.types:
+                raise Unsupported("unknown name " + n.id)
+            return self.types[n.id]
+        if isinstance(n, ast.BinOp):
+            a, b = self.ty(n.left), self.ty(n.right)
+            if "str" in (a, b):
+                raise Unsupported("arithmetic on a string")
+            if isinstance(n.op, ast.Div):
+                return "float"
+            if isinstance(n.op, (ast.Add, ast.Sub, ast.Mult)):
+                return "float" if "float" in (a, b) else "int"
+            if isinstance(n.op, ast.Pow) and a == "int" and b == "int":
+                return "int"
+        if isinstance(n, ast.UnaryOp) and isinstance(n.op, ast.USub) and self.ty(n.operand) == "float":
+            return "float"
+        if isinstance(n, ast.ListComp):
+            g = n.generators
+            if len(g) != 1 or g[0].ifs or not isinstance(g[0].target, ast.Name):
+                raise Unsupported("comprehension form")
+            it = self.ty(g[0].iter)
+            if it not in ("str", "floats"):
+                raise Unsupported("comprehension over " + it)
+            old = self.types.get(g[0].target.id)
+            self.types[g[0].target.id] = "int" if it == "str" else "float"
+            try:
+                et = self.ty(n.elt)
+            finally:
+                if old is None:
+                    self.types.pop(g[0].target.id, None)
+                else:
+                    self.types[g[0].target.id] = old
+            if et != "float":
+                raise Unsupported("comprehension element is not a float")
+            return "floats"
+        if isinstance(n, ast.Call) and not n.keywords:
+            f = ast.unparse(n.func)
+            if f == "dict.fromkeys" and len(n.args) == 1 and ast.unparse(n.args[0]).startswith("list(") and self.ty(n.args[0].args[0]) == "str":
+                return "str"        # the distinct symbols, again a sequence of symbols
+            if f == "sum" and len(n.args) == 1 and self.ty(n.args[0]) == "floats":
+                return "float"
+            if f == "float" and len(n.args) == 1 and self.ty(n.args[0]) == "int":
+                return "float"
+            if isinstance(n.func, ast.Attribute) and n.func.attr == "count" and len(n.args) == 1 and self.ty(n.func.value) == "str" and self.ty(n.args[0]) == "int":
+                return "int"
+            if f == "len" and len(n.args) == 1 and self.ty(n.args[0]) == "str":
+                return "int"
+            if f == "shannon_entropy" and len(n.args) == 1 and self.ty(n.args[0]) == "str":
+                return "float"
+            if f == "joint_shannon_entropy" and len(n.args) == 2 and all(self.ty(x) == "str" for x in n.args):
+                return "float"
+            if f == "math.log" and len(n.args) == 2 and isinstance(n.args[1], ast.Constant) and n.args[1].value == 2.0 and self.ty(n.args[0]) in ("int", "float"):
+                return "float"
+            if f in self.SIBLINGS and len(n.args) == 1 and self.ty(n.args[0]) == "str":
+                return "str"
+        raise Unsupported("expression " + ast.unparse(n)[:60])
+
+    def I(self, n):
+        if isinstance(n, ast.Constant):
+            return "(%d : Int)" % n.value
+        if isinstance(n, ast.Name):
+            return "v_" + n.id
+        if isinstance(n, ast.BinOp):
+            if isinstance(n.op, ast.Pow):
+                return "(%s ^ (%s).toNat)" % (self.I(n.left), self.I(n.right))      # non-negative exponent: the tie's guard
+            return "(%s %s %s)" % (self.I(n.left), {ast.Add: "+", ast.Sub: "-", ast.Mult: "*"}[type(n.op)], self.I(n.right))
+        if isinstance(n, ast.Call) and ast.unparse(n.func) == "len":
+            return "((List.length %s : Nat) : Int)" % self.S(n.args[0])
+        if isinstance(n, ast.Call) and isinstance(n.func, ast.Attribute) and n.func.attr == "count":
+            return "((List.count %s %s : Nat) : Int)" % (self.I(n.args[0]), self.S(n.func.value))
+        raise Unsupported("integer expression " + ast.unparse(n)[:60])
+
+    def S(self, n):
+        if isinstance(n, ast.Name):
+            return "v_" + n.id
+        if isinstance(n, ast.Call) and ast.unparse(n.func) == "dict.fromkeys":
+            return "(Cpl.pyDistinct %s)" % self.S(n.args[0].args[0])
+        if isinstance(n, ast.Call):
+            return "(%s %s)" % (self.SIBLINGS[ast.unparse(n.func)], self.S(n.args[0]))
+        raise Unsupported("string expression " + ast.unparse(n)[:60])
+
+    def Fl(self, n):
+        t = self.ty(n)
+        if t == "int":
+            if isinstance(n, ast.Constant) and n.value >= 0:
+                return "(N.ofNat %d)" % n.value
+            return "(N.ofNat (%s).toNat)" % self.I(n)          # a whole, non-negative number used as a float
+        if isinstance(n, ast.Constant):
+            if n.value != int(n.value) or n.value < 0:
+                raise Unsupported("float literal " + repr(n.value))
+            return "(N.ofNat %d)" % int(n.value)
+        if isinstance(n, ast.Name):
+            return "v_" + n.id
+        if isinstance(n, ast.BinOp):
+            op = {ast.Add: "N.add", ast.Sub: "N.sub", ast.Mult: "N.mul", ast.Div: "N.div"}.get(type(n.op))
+            if not op:
+                raise Unsupported("float operator")
+            return "(%s %s %s)" % (op, self.Fl(n.left), self.Fl(n.right))
+        if isinstance(n, ast.UnaryOp):
+            return "(N.neg %s)" % self.Fl(n.operand)
+        if isinstance(n, ast.Call):
+            f = ast.unparse(n.func)
+            if f == "shannon_entropy":
+                return "(shannon N %s)" % self.S(n.args[0])
+            if f == "joint_shannon_entropy":
+                return "(jointShannon N %s %s)" % (self.S(n.args[0]), self.S(n.args[1]))
+            if f == "math.log":
+                return "(N.log2 %s)" % self.Fl(n.args[0])
+            if f == "sum":
+                return "(N.sum %s)" % self.L(n.args[0])
+            if f == "float":
+                return self.Fl(n.args[0])
+        raise Unsupported("float expression " + ast.unparse(n)[:60])
+
+    def L(self, n):
+        """A list of floats."""
+        if isinstance(n, ast.Name):
+            return "v_" + n.id
+        if isinstance(n, ast.ListComp):
+            self.ty(n)
+            g = n.generators[0]
+            it_t = self.ty(g.iter)
+            it = self.S(g.iter) if it_t == "str" else self.L(g.iter)
+            old = self.types.get(g.target.id)
+            self.types[g.target.id] = "int" if it_t == "str" else "float"
+            try:
+                elt = self.Fl(n.elt)
+            finally:
+                if old is None:
+                    self.types.pop(g.target.id, None)
+                else:
+                    self.types[g.target.id] = old
+            return "(List.map (fun v_%s => %s) %s)" % (g.target.id, elt, it)
+        raise Unsupported("list expression " + ast.unparse(n)[:60])
+
+    LT = {"int": "Int", "float": "F", "str": "List Int", "floats": "List F"}
+
+    def E(self, n):
+        t = self.ty(n)
+        return {"int": self.I, "float": self.Fl, "str": self.S, "floats": self.L}[t](n), t
+
+    def assign(self, st, pad):
+        if isinstance(st, ast.Assign) and len(st.targets) == 1 and isinstance(st.targets[0], ast.Name):
+            nm = st.targets[0].id
+            e, t = self.E(st.value)
+            if self.types.setdefault(nm, t) != t:
+                raise Unsupported("variable %s changes type" % nm)
+            return nm, "%slet v_%s : %s := %s" % (pad, nm, self.LT[t], e)
+        if isinstance(st, ast.AugAssign) and isinstance(st.op, ast.Add) and isinstance(st.target, ast.Name) and self.types.get(st.target.id) == "float":
+            nm = st.target.id
+            return nm, "%slet v_%s : F := (N.add v_%s %s)" % (pad, nm, nm, self.Fl(st.value))
+        raise Unsupported("statement " + ast.unparse(st)[:60])
+
+    def render(self, lean):
+        body = [st for st in self.fn.body if not (isinstance(st, ast.Expr) and isinstance(st.value, ast.Constant))]
+        out = ["def %s {F : Type} (N : Num F) %s : F :=" % (lean, " ".join("(v_%s0 : List Int)" % p for p in self.params))]
+        out += ["  let v_%s : List Int := v_%s0" % (p, p) for p in self.params]
+        order = list(self.params)
+        seen_loop = False
+        for st in body:
+            if isinstance(st, ast.For):
+                if seen_loop or st.orelse or not isinstance(st.target, ast.Name):
+                    raise Unsupported("loop form")
+                seen_loop = True
+                it = st.iter
+                if not (isinstance(it, ast.Call) and ast.unparse(it.func) == "range" and len(it.args) == 1 and self.ty(it.args[0]) == "int"):
+                    raise Unsupported("loop is not over range(e)")
+                kv = st.target.id
+                self.types[kv] = "int"
+                inner, mutated = [], []
+                for b in st.body:
+                    nm, txt = self.assign(b, "    ")
+                    inner.append(txt)
+                    if nm in order and nm not in mutated:
+                        mutated.append(nm)
+                state = [v for v in order if v in mutated]
+                if not state:
+                    raise Unsupported("loop without state")
+                sty = " × ".join(self.LT[self.types[v]] for v in state)
+
+                def proj(i):
+                    if len(state) == 1:
+                        return "st"
+                    return "st." + "2." * i + ("1" if i < len(state) - 1 else "")
+                projs = []
+                for i, v in enumerate(state):
+                    pr = "st" if len(state) == 1 else ("st." + "2." * i + "1" if i < len(state) - 1 else "st." + "2." * (i - 1) + "2")
+                    projs.append((v, pr))
+                out.append("  let st := (List.range (%s).toNat).foldl (fun (st : %s) (k_%s : Nat) =>" % (self.I(it.args[0]), sty, kv))
+                for v, pr in projs:
+                    out.append("    let v_%s := %s" % (v, pr))
+                out.append("    let v_%s : Int := (k_%s : Int)" % (kv, kv))
+                out += inner
+                out.append("    (%s)) (%s)" % (", ".join("v_" + v for v in state), ", ".join("v_" + v for v in state)))
+                for v, pr in projs:
+                    out.append("  let v_%s := %s" % (v, pr))
+            elif isinstance(st, ast.Return):
+                e, t = self.E(st.value)
+                if t != "float":
+                    raise Unsupported("does not return a float")
+                out.append("  " + e)
+                return "\n".join(out)
+            else:
+                nm, txt = self.assign(st, "  ")
+                out.append(txt)
+                if nm not in order:
+                    order.append(nm)
+        raise Unsupported("no return")
+
+
+EF_HEADER = '''import Cpl.Model.Measures
+import Cpl.Gen.Entropy
+/-! GENERATED by tools/py2lean_comp.py from /repo/cellpylib/entropy.py (`shannon_entropy`, whole) on every run. Do not edit.
+Floating-point operations are written over the abstract arithmetic record `Num F` of the model (see Gen/BienLoops.lean);
+`sum(list)` = `N.sum` (a left fold from 0), a comprehension = `List.map`, `dict.fromkeys(list(s))` = `pyDistinct s`. -/
+
+namespace Cpl.Gen.EntropyFull
+open Cpl
+set_option linter.unusedVariables false
+'''
+
+
+def gen_entropy_full(repo, out):
+    parts = [EF_HEADER]
+    status = {}
+    attempt = make_attempt(parts, status)
+
+    def go():
+        tree = ast.parse(open(os.path.join(repo, "cellpylib", "entropy.py")).read())
+        fn = find(tree.body, ast.FunctionDef, "shannon_entropy")
+        return "/-- `shannon_entropy` (entropy.py), translated statement by statement over the abstract arithmetic `N`. -/\n%s" % FloatFn(fn).render("shannonEntropy")
+    attempt("shannonEntropy", go)
+
+    def mi():
+        tree = ast.parse(open(os.path.join(repo, "cellpylib", "entropy.py")).read())
+        fn = find(tree.body, ast.FunctionDef, "mutual_information")
+        return ("/-- `mutual_information` (entropy.py), translated over the abstract arithmetic `N` (`shannon_entropy`, "
+                "`joint_shannon_entropy` = the model's functions: sibling calls). -/\n%s" % FloatFn(fn).render("mutualInformation"))
+    attempt("mutualInformation", mi)
+    emit(out, "EntropyFull.lean", parts, status, "Cpl.Gen.EntropyFull")
+    return status
+
+
+def gen_bien_loops(repo, out):
+    parts = [BL_HEADER]
+    status = {}
+    attempt = make_attempt(parts, status)
+    try:
+        tree = ast.parse(open(os.path.join(repo, "cellpylib", "bien.py")).read())
+    except Exception as e:  # noqa
+        tree = None
+        parts.append("-- bien.py: not readable (%s)" % e)
+    if tree is not None:
+        for name in ("bien", "tbien", "ktbien"):
+            def go(name=name):
+                fn = find(tree.body, ast.FunctionDef, name)
+                return "/-- `%s` (bien.py), translated statement by statement over the abstract arithmetic `N`. -/\n%s" % (name, FloatFn(fn).render(name))
+            attempt(name, go)
+    emit(out, "BienLoops.lean", parts, status, "Cpl.Gen.BienLoops")
+    return status
+
+
+UF_HEADER = '''import Cpl.Py
+/-! GENERATED by tools/py2lean_comp.py from /repo/cellpylib/ca_functions.py (`until_fixed_point`: the predicate it returns) on
+every run. Do not edit. The evolution so far is the list of its rows; `Option`: `none` = the Python code raised. -/
+
+namespace Cpl
+
+/-- `(a == b).all()` on two rows of equal length (two states of one automaton). -/
+def rowsEqAll (a b : List Int) : Bool := decide (a = b)
+
+end Cpl
+
+namespace Cpl.Gen.FixedPoint
+open Cpl
+set_option linter.unusedVariables false
+'''
+
+
+def gen_fixed_point(repo, out):
+    parts = [UF_HEADER]
+    status = {}
+    attempt = make_attempt(parts, status)
+
+    def go():
+        tree = ast.parse(open(os.path.join(repo, "cellpylib", "ca_functions.py")).read())
+        outer = find(tree.body, ast.FunctionDef, "until_fixed_point")
+        inner = [x for x in outer.body if isinstance(x, ast.FunctionDef)]
+        ret = [x for x in outer.body if isinstance(x, ast.Return)]
+        if len(inner) != 1 or len(ret) != 1 or ast.unparse(ret[0].value) != inner[0].name or outer.args.args:
+            raise Unsupported("until_fixed_point does not return its one nested function")
+        fn = inner[0]
+        if [a.arg for a in fn.args.args] != ["ca", "t"]:
+            raise Unsupported("parameters of the predicate")
+
+        def B(n):
+            """A Boolean expression; returns (prelude lines, lean Bool term)."""
+            if isinstance(n, ast.Constant) and isinstance(n.value, bool):
+                return [], "true" if n.value else "false"
+            if isinstance(n, ast.Compare) and len(n.ops) == 1 and ast.unparse(n.left) == "len(ca)" and isinstance(n.comparators[0], ast.Constant) \
+                    and isinstance(n.comparators[0].value, int):
+                sym = {ast.Gt: ">", ast.GtE: "≥", ast.Lt: "<", ast.LtE: "≤", ast.Eq: "=", ast.NotEq: "≠"}.get(type(n.ops[0]))
+                if sym:
+                    return [], "(decide (((List.length v_ca : Nat) : Int) %s (%d : Int)))" % (sym, n.comparators[0].value)
+            if isinstance(n, ast.IfExp):
+                p0, c = B(n.test)
+                p1, a = B(n.body)
+                p2, b = B(n.orelse)
+                if p1 or p2:
+                    raise Unsupported("conditional expression whose branches can raise")
+                return p0, "(if %s then %s else %s)" % (c, a, b)
+            if isinstance(n, ast.Call) and isinstance(n.func, ast.Attribute) and n.func.attr == "all" and not n.args and isinstance(n.func.value, ast.Compare) \
+                    and len(n.func.value.ops) == 1 and isinstance(n.func.value.ops[0], ast.Eq):
+                rows = []
+                pre = []
+                for k, side in enumerate([n.func.value.left, n.func.value.comparators[0]]):
+                    if not (isinstance(side, ast.Subscript) and ast.unparse(side.value) == "ca" and not isinstance(side.slice, ast.Slice)):
+                        raise Unsupported("compared rows")
+                    idx = ast.literal_eval(side.slice)
+                    if not isinstance(idx, int):
+                        raise Unsupported("row index")
+                    pre.append("let k_row%d ← (Py.getIdx v_ca (%d : Int)).toOption" % (k, idx))
+                    rows.append("k_row%d" % k)
+                return pre, "(Cpl.rowsEqAll %s %s)" % (rows[0], rows[1])
+            raise Unsupported("boolean expression " + ast.unparse(n)[:60])
+
+        def stmts(body, pad):
+            out_ = []
+            for st in body:
+                if isinstance(st, ast.Expr) and isinstance(st.value, ast.Constant):
+                    continue
+                if isinstance(st, ast.Return):
+                    pre, e = B(st.value)
+                    out_ += [pad + x for x in pre] + [pad + "return " + e]
+                elif isinstance(st, ast.If) and not st.orelse:
+                    pre, c = B(st.test)
+                    out_ += [pad + x for x in pre] + [pad + "if %s then" % c] + stmts(st.body, pad + "  ")
+                else:
+                    raise Unsupported("statement " + ast.unparse(st)[:60])
+            return out_
+        body = stmts(fn.body, "  ")
+        return ("/-- The predicate returned by `until_fixed_point()` (ca_functions.py), translated statement by statement. -/\n"
+                "def untilFixedPoint (v_ca : List (List Int)) (v_t : Int) : Option Bool := do\n" + "\n".join(body))
+    attempt("untilFixedPoint", go)
+    emit(out, "FixedPoint.lean", parts, status, "Cpl.Gen.FixedPoint")
+    return status
+
+
+AV_HEADER = '''import Cpl.Model.Measures
+import Cpl.Gen.Blocks
+/-! GENERATED by tools/py2lean_comp.py from /repo/cellpylib/entropy.py (`average_cell_entropy`, `average_mutual_information`)
+on every run. Do not edit. The automaton is the list of its rows; `a.shape[0]` = number of rows, `a.shape[1]` = `numCols`,
+`a[:, i]` = `column a i`, `[str(x) for x in col]` = the column itself (states are the symbols: `str` is injective on them),
+`np.mean` = `N.mean`, sibling calls = the model's functions, float operations over the abstract arithmetic `Num F`.
+`Option`: `none` = the Python code raised. A loop that only appends to a list is a left fold building that list. -/
+
+namespace Cpl.Gen.Averages
+open Cpl
+set_option linter.unusedVariables false
+'''
+
+
+class AvgFn:
+    """average_cell_entropy / average_mutual_information: optional guard, one loop over the columns appending a float."""
+    def __init__(self, fn):
+        self.fn = fn
+        self.params = [a.arg for a in fn.args.args]
+        if not self.params or self.params[0] != "cellular_automaton" or len(self.params) > 2:
+            raise Unsupported("parameters of " + fn.name)
+        self.types = {"cellular_automaton": "arr2"}
+        if len(self.params) == 2:
+            self.types[self.params[1]] = "int"
+
+    def I(self, n):
+        if isinstance(n, ast.Constant) and isinstance(n.value, int) and not isinstance(n.value, bool):
+            return "(%d : Int)" % n.value
+        if isinstance(n, ast.Name) and self.types.get(n.id) == "int":
+            return "v_" + n.id
+        if isinstance(n, ast.UnaryOp) and isinstance(n.op, ast.USub):
+            return "(-%s)" % self.I(n.operand)
+        u = ast.unparse(n)
+        if u == "cellular_automaton.shape[0]":
+            return "((List.length v_cellular_automaton : Nat) : Int)"
+        if u == "cellular_automaton.shape[1]":
+            return "((Cpl.numCols v_cellular_automaton : Nat) : Int)"
+        raise Unsupported("integer expression " + u[:60])
+
+    def B(self, n):
+        if isinstance(n, ast.UnaryOp) and isinstance(n.op, ast.Not):
+            return "(!%s)" % self.B(n.operand)
+        if isinstance(n, ast.Compare) and len(n.ops) in (1, 2):
+            syms = [{ast.Lt: "<", ast.LtE: "≤", ast.Gt: ">", ast.GtE: "≥", ast.Eq: "=", ast.NotEq: "≠"}.get(type(o)) for o in n.ops]
+            if all(syms):
+                xs = [self.I(x) for x in [n.left] + n.comparators]
+                return "(" + " && ".join("decide (%s %s %s)" % (xs[k], syms[k], xs[k + 1]) for k in range(len(syms))) + ")"
+        raise Unsupported("condition " + ast.unparse(n)[:60])
+
+    def S(self, n):
+        """A sequence of symbols."""
+        if isinstance(n, ast.Name) and self.types.get(n.id) == "str":
+            return "v_" + n.id
+        if isinstance(n, ast.ListComp) and len(n.generators) == 1 and not n.generators[0].ifs and isinstance(n.generators[0].target, ast.Name) \
+                and ast.unparse(n.elt) == "str(%s)" % n.generators[0].target.id:
+            it = n.generators[0].iter
+            if isinstance(it, ast.Subscript) and ast.unparse(it.value) == "cellular_automaton" and isinstance(it.slice, ast.Tuple) and len(it.slice.elts) == 2 \
+                    and ast.unparse(it.slice.elts[0]) == ":":
+                return "(Cpl.column v_cellular_automaton (%s).toNat)" % self.I(it.slice.elts[1])
+        if isinstance(n, ast.Subscript) and isinstance(n.slice, ast.Slice) and n.slice.step is None:
+            base = self.S(n.value)
+            lo, hi = n.slice.lower, n.slice.upper
+            if lo is not None and hi is None:
+                return "(Py.sliceFrom %s %s)" % (base, self.I(lo))
+            if hi is not None and lo is None:
+                return "(Py.sliceTo %s %s)" % (base, self.I(hi))
+        raise Unsupported("symbol sequence " + ast.unparse(n)[:70])
+
+    def Fl(self, n):
+        if isinstance(n, ast.Name) and self.types.get(n.id) == "float":
+            return "v_" + n.id
+        if isinstance(n, ast.Call) and not n.keywords:
+            f = ast.unparse(n.func)
+            if f == "shannon_entropy" and len(n.args) == 1:
+                return "(shannon N %s)" % self.S(n.args[0])
+            if f == "mutual_information" and len(n.args) == 2:
+                return "(mutualInformation N %s %s)" % (self.S(n.args[0]), self.S(n.args[1]))
+            if f == "np.mean" and len(n.args) == 1 and isinstance(n.args[0], ast.Name) and self.types.get(n.args[0].id) == "floats":
+                return "(N.mean v_%s)" % n.args[0].id
+        raise Unsupported("float expression " + ast.unparse(n)[:60])
+
+    def render(self, lean):
+        body = [st for st in self.fn.body if not (isinstance(st, ast.Expr) and isinstance(st.value, ast.Constant))]
+        ps = "(v_cellular_automaton : List (List Int))" + ("" if len(self.params) == 1 else " (v_%s : Int)" % self.params[1])
+        out = ["def %s {F : Type} (N : Num F) %s : Option F := do" % (lean, ps)]
+        for st in body:
+            if isinstance(st, ast.Assign) and len(st.targets) == 1 and isinstance(st.targets[0], ast.Name):
+                nm = st.targets[0].id
+                if isinstance(st.value, ast.List) and not st.value.elts:
+                    self.types[nm] = "floats"
+                    out.append("  let v_%s : List F := []" % nm)
+                else:
+                    self.types[nm] = "int"
+                    out.append("  let v_%s : Int := %s" % (nm, self.I(st.value)))
+            elif isinstance(st, ast.If) and not st.orelse and len(st.body) == 1 and isinstance(st.body[0], ast.Raise):
+                out.append("  if %s then none" % self.B(st.test))
+            elif isinstance(st, ast.For) and not st.orelse and isinstance(st.target, ast.Name):
+                it = st.iter
+                if not (isinstance(it, ast.Call) and ast.unparse(it.func) == "range" and len(it.args) == 2):
+                    raise Unsupported("loop is not over range(a, b)")
+                iv = st.target.id
+                self.types[iv] = "int"
+                inner, acc = [], None
+                for b in st.body:
+                    if isinstance(b, ast.Assign) and len(b.targets) == 1 and isinstance(b.targets[0], ast.Name):
+                        nm = b.targets[0].id
+                        try:
+                            e = self.S(b.value)
+                            self.types[nm] = "str"
+                            inner.append("    let v_%s : List Int := %s" % (nm, e))
+                        except Unsupported:
+                            e = self.Fl(b.value)
+                            self.types[nm] = "float"
+                            inner.append("    let v_%s : F := %s" % (nm, e))
+                    elif isinstance(b, ast.Expr) and isinstance(b.value, ast.Call) and isinstance(b.value.func, ast.Attribute) and b.value.func.attr == "append" \
+                            and isinstance(b.value.func.value, ast.Name) and self.types.get(b.value.func.value.id) == "floats" and len(b.value.args) == 1:
+                        if acc is not None:
+                            raise Unsupported("two appends in the loop")
+                        acc = b.value.func.value.id
+                        inner.append("    acc ++ [%s]" % self.Fl(b.value.args[0]))
+                    else:
+                        raise Unsupported("loop statement " + ast.unparse(b)[:60])
+                if acc is None or not inner[-1].startswith("    acc ++"):
+                    raise Unsupported("the loop does not end by appending to a list")
+                out.append("  let v_%s : List F := (Cpl.pyRange %s %s 1).foldl (fun (acc : List F) (v_%s : Int) =>" % (acc, self.I(it.args[0]), self.I(it.args[1]), iv))
+                out += inner[:-1] + [inner[-1] + ") v_%s" % acc]
+            elif isinstance(st, ast.Return):
+                out.append("  pure %s" % self.Fl(st.value))
+                return "\n".join(out)
+            else:
+                raise Unsupported("statement " + ast.unparse(st)[:60])
+        raise Unsupported("no return")
+
+
+def gen_averages(repo, out):
+    parts = [AV_HEADER]
+    status = {}
+    attempt = make_attempt(parts, status)
+    for (py, lean) in (("average_cell_entropy", "averageCellEntropy"), ("average_mutual_information", "averageMutualInformation")):
+        def go(py=py, lean=lean):
+            tree = ast.parse(open(os.path.join(repo, "cellpylib", "entropy.py")).read())
+            fn = find(tree.body, ast.FunctionDef, py)
+            return "/-- `%s` (entropy.py), translated statement by statement. -/\n%s" % (py, AvgFn(fn).render(lean))
+        attempt(lean, go)
+    emit(out, "Averages.lean", parts, status, "Cpl.Gen.Averages")
+    return status
+
+
 def main():
     ap = argparse.ArgumentParser()
     ap.add_argument("--repo", default="/repo")
@@ -598,6 +1129,10 @@ def main():
     st.update(gen_entropy(a.repo, a.out))
     st.update(gen_rule_tables(a.repo, a.out))
     st.update(gen_strides(a.repo, a.out))
+    st.update(gen_bien_loops(a.repo, a.out))
+    st.update(gen_entropy_full(a.repo, a.out))
+    st.update(gen_fixed_point(a.repo, a.out))
+    st.update(gen_averages(a.repo, a.out))
     print("py2lean_comp: " + "; ".join("%s %s" % kv for kv in st.items()))
     sys.exit(0)
 
@@ -713,6 +1248,24 @@ def gen_apen(repo, out):
                     "def phiArgs (v_m : Int) : Int × Int :=\n  (%s, %s)" % (tr.P(l.args[0]), tr.P(rr.args[0])))
         attempt("phiArgs", args)
 
+    if all(status.get(k) == "translated" for k in ("phiWindows", "phiCounts", "phiDenoms", "phiArgs")):
+        # the two floating-point lines, whose shapes were checked above — C = [NUMERATOR / D0 for x_i in x],
+        # return (1 / D1) * sum(np.log(C)), return abs(phi(A) - phi(B)) — assembled from the translated parts over the
+        # abstract arithmetic record of the model (np.log = N.ln elementwise, sum = N.sum, abs = N.abs)
+        parts.append("""/-- `phi(m)` of `apen` (apen.py): the translated parts above put together along its two floating-point lines. -/
+def phiFull {F : Type} (N : Num F) (v_U : List Int) (v_r v_m : Int) : Option F := do
+  let v_N : Int := ((List.length v_U : Nat) : Int)
+  let v_x ← phiWindows v_U v_m
+  let numerators ← phiCounts v_x v_r
+  let v_C : List F := numerators.map fun c => N.div (N.ofNat c.toNat) (N.ofNat ((phiDenoms v_N v_m).getD 0 0).toNat)
+  pure (N.mul (N.div (N.ofNat 1) (N.ofNat ((phiDenoms v_N v_m).getD 1 0).toNat)) (N.sum (v_C.map N.ln)))
+
+/-- `apen` (apen.py) after the dispatch on the input form: `abs(phi(A) - phi(B))`. -/
+def apenFull {F : Type} (N : Num F) (v_U : List Int) (v_m v_r : Int) : Option F := do
+  let a ← phiFull N v_U v_r (phiArgs v_m).1
+  let b ← phiFull N v_U v_r (phiArgs v_m).2
+  pure (N.abs (N.sub a b))""")
+        status["apenFull"] = "translated"
     emit(a.out, "Apen.lean", parts, status, "Cpl.Gen.Apen")
     return status
 
